@@ -5,7 +5,7 @@
   This file is driver plumbing (not part of the model the theorems are about).
 -/
 import Lean.Data.Json
-import Minidyn.Model.Interp
+import Minidyn.Model.Client
 open Lean
 namespace Minidyn.Codec
 
@@ -86,5 +86,192 @@ def ierrName : IErr → String
   | .syntax => "Syntax"
   | .unsupported => "Unsupported"
   | .outOfFuel => "OutOfFuel"
+
+end Minidyn.Codec
+
+/-! ### histories -/
+namespace Minidyn.Codec
+open Lean
+
+def fld (j : Json) (k : String) : Except String Json :=
+  match j.getObjVal? k with
+  | .ok v => pure v
+  | .error _ => throw s!"missing field {k}"
+
+def fldOpt (j : Json) (k : String) : Option Json :=
+  match j.getObjVal? k with
+  | .ok v => if v.isNull then none else some v
+  | .error _ => none
+
+def hexFld (j : Json) (k : String) : Except String Bytes :=
+  match fldOpt j k with
+  | some v => hexOf v
+  | none => pure []
+
+def boolFld (j : Json) (k : String) : Bool :=
+  match fldOpt j k with
+  | some (Json.bool b) => b
+  | _ => false
+
+def natFld (j : Json) (k : String) : Nat :=
+  match fldOpt j k with
+  | some v => (v.getNat?.toOption).getD 0
+  | none => 0
+
+def itemFld (j : Json) (k : String) : Except String Item :=
+  match fldOpt j k with
+  | some v => itemOfJson v
+  | none => pure []
+
+def pairOfJson (j : Json) : Except String (Bytes × Bytes) := do
+  let pa ← j.getArr?
+  if h : pa.size = 2 then pure (← hexOf pa[0], ← hexOf pa[1]) else throw "bad pair"
+
+def keyDefOfJson (j : Json) : Except String KeyDef := do
+  let h ← pairOfJson (← fld j "hash")
+  let r ← match fldOpt j "range" with
+    | some v => do let p ← pairOfJson v; pure (some p)
+    | none => pure none
+  pure { hash := h, range := r }
+
+def indexDefOfJson (j : Json) : Except String IndexDef := do
+  pure { name := ← hexFld j "name", key := ← keyDefOfJson (← fld j "key"), throughput := boolFld j "tp" }
+
+def indexDefsOpt (j : Json) (k : String) : Except String (Option (List IndexDef)) :=
+  match fldOpt j k with
+  | some v => do
+    let arr ← v.getArr?
+    let l ← arr.toList.mapM indexDefOfJson
+    pure (some l)
+  | none => pure none
+
+def exprsOf (j : Json) : Except String Exprs := do
+  let names ← match fldOpt j "names" with | some v => namesOfJson v | none => pure []
+  let values ← itemFld j "values"
+  pure { names, values }
+
+def condOf (j : Json) : Except String (Option Bytes) :=
+  match fldOpt j "cond" with
+  | some v => do let b ← hexOf v; pure (some b)
+  | none => pure none
+
+def queryOf (j : Json) : Except String Table.Query := do
+  pure { index := ← hexFld j "index", limit := natFld j "limit", startKey := ← itemFld j "startKey",
+         keyCond := ← hexFld j "keyCond", filter := ← hexFld j "filter", forward := boolFld j "forward",
+         scan := boolFld j "scan" }
+
+def wreqOfJson (j : Json) : Except String WriteReq := do
+  match fldOpt j "both" with
+  | some v => do
+    let pa ← v.getArr?
+    if h : pa.size = 2 then pure (.both (← itemOfJson pa[0]) (← itemOfJson pa[1])) else throw "bad both"
+  | none =>
+    if boolFld j "neither" then pure .neither
+    else match fldOpt j "put" with
+      | some v => pure (.put (← itemOfJson v))
+      | none => pure (.del (← itemFld j "del"))
+
+def kindOf (s : String) : ExprKind :=
+  if s == "key" then .key else if s == "filter" then .filter else .cond
+
+def opOfJson (j : Json) : Except String Op := do
+  let name ← (← fld j "op").getStr?
+  let table ← hexFld j "table"
+  match name with
+  | "createTable" =>
+    pure (.createTable { table, key := ← keyDefOfJson (← fld j "key"), gsi := ← indexDefsOpt j "gsi",
+                         lsi := ← indexDefsOpt j "lsi", payPerRequest := boolFld j "ppr", throughput := boolFld j "tp" })
+  | "deleteTable" => pure (.deleteTable table)
+  | "describeTable" => pure (.describeTable table)
+  | "clearTable" => pure (.clearTable table)
+  | "updateTable" =>
+    let chs ← match fldOpt j "changes" with
+      | some v => do
+        let arr ← v.getArr?
+        arr.toList.mapM fun c => match fldOpt c "create" with
+          | some d => do pure (IndexChange.create (← indexDefOfJson d))
+          | none => do pure (IndexChange.delete (← hexFld c "delete"))
+      | none => pure []
+    pure (.updateTable table chs)
+  | "put" => pure (.put table (← itemFld j "item") (← condOf j) (← exprsOf j))
+  | "update" => pure (.update table (← itemFld j "keyItem") (← hexFld j "expr") (← condOf j) (← exprsOf j) (boolFld j "retOnFail"))
+  | "delete" => pure (.delete table (← itemFld j "keyItem") (← condOf j) (← exprsOf j) (boolFld j "retOld"))
+  | "get" => pure (.get table (← itemFld j "keyItem"))
+  | "query" => pure (.query table (← queryOf j) (← exprsOf j))
+  | "pages" =>
+    let da := match fldOpt j "delAfter" with | some v => v.getNat?.toOption | none => none
+    pure (.pages table (← queryOf j) (← exprsOf j) da (natFld j "maxPages"))
+  | "batchWrite" =>
+    let reqs ← match fldOpt j "wreqs" with
+      | some v => do
+        let arr ← v.getArr?
+        arr.toList.mapM fun p => do
+          let pa ← p.getArr?
+          if h : pa.size = 2 then
+            let rs ← (← pa[1].getArr?).toList.mapM wreqOfJson
+            pure (← hexOf pa[0], rs)
+          else throw "bad wreqs"
+      | none => pure []
+    pure (.batchWrite reqs)
+  | "batchGet" =>
+    let reqs ← match fldOpt j "greqs" with
+      | some v => do
+        let arr ← v.getArr?
+        arr.toList.mapM fun p => do
+          let pa ← p.getArr?
+          if h : pa.size = 2 then
+            let ks ← (← pa[1].getArr?).toList.mapM itemOfJson
+            pure (← hexOf pa[0], ks)
+          else throw "bad greqs"
+      | none => pure []
+    pure (.batchGet reqs)
+  | "transactWrite" => pure .transactWrite
+  | "setFailure" =>
+    let f ← (← fld j "f").getStr?
+    pure (.setFailure (if f == "internal_server" then some .internalServer else if f == "deprecated" then some .deprecated else none))
+  | "activateNative" => pure .activateNative
+  | "setInterpreter" => pure .setInterpreter
+  | "registerMatcher" => pure (.registerMatcher table (kindOf ((← fld j "kind").getStr?.toOption.getD "")) (← hexFld j "expr") (natFld j "id"))
+  | "registerUpdater" => pure (.registerUpdater table (← hexFld j "expr") (natFld j "id"))
+  | o => throw s!"unknown op {o}"
+
+def errClassName : ErrClass → String
+  | .validation => "Validation" | .conditionFailed => "ConditionalCheckFailed"
+  | .resourceNotFound => "ResourceNotFound" | .resourceInUse => "ResourceInUse"
+  | .internalServer => "InternalServerError" | .forcedFailure => "ForcedFailure"
+  | .unsupported => "Unsupported" | .syntax => "Syntax"
+
+def pairsJ (l : List (Bytes × Bytes)) : Json := Json.arr (l.map fun (a, b) => Json.arr #[hexJ a, hexJ b]).toArray
+
+def indexDescJ (d : IndexDesc) : Json :=
+  Json.mkObj [("name", hexJ d.name), ("count", Json.num d.count), ("schema", pairsJ d.schema)]
+
+def wreqJ : WriteReq → Json
+  | .put it => Json.mkObj [("put", itemToJson it)]
+  | .del k => Json.mkObj [("del", itemToJson k)]
+  | .both it k => Json.mkObj [("both", Json.arr #[itemToJson it, itemToJson k])]
+  | .neither => Json.mkObj [("neither", Json.bool true)]
+
+def outToJson : Out → Json
+  | .ok => Json.mkObj [("ok", Json.bool true)]
+  | .item none => Json.mkObj [("item", Json.null)]
+  | .item (some it) => Json.mkObj [("item", itemToJson it)]
+  | .search items count lek =>
+    Json.mkObj [("search", Json.mkObj [("items", Json.arr (items.map itemToJson).toArray), ("count", Json.num count), ("lek", itemToJson lek)])]
+  | .pages ps =>
+    Json.mkObj [("pages", Json.arr (ps.map fun (items, lek) =>
+      Json.mkObj [("items", Json.arr (items.map itemToJson).toArray), ("lek", itemToJson lek)]).toArray)]
+  | .describe d =>
+    Json.mkObj [("describe", Json.mkObj [("count", Json.num d.count), ("schema", pairsJ d.schema),
+      ("gsi", Json.arr (d.gsi.map indexDescJ).toArray), ("lsi", Json.arr (d.lsi.map indexDescJ).toArray)])]
+  | .batchWrite unp =>
+    Json.mkObj [("batchWrite", Json.arr ((sortAssoc unp).map fun (t, rs) => Json.arr #[hexJ t, Json.arr (rs.map wreqJ).toArray]).toArray)]
+  | .batchGet resp unp =>
+    let tk (l : List (Bytes × List Item)) := Json.arr ((sortAssoc l).map fun (t, ks) => Json.arr #[hexJ t, Json.arr (ks.map itemToJson).toArray]).toArray
+    Json.mkObj [("batchGet", Json.mkObj [("responses", tk resp), ("unprocessed", tk unp)])]
+  | .err cls none => Json.mkObj [("err", Json.str (errClassName cls))]
+  | .err cls (some it) => Json.mkObj [("err", Json.str (errClassName cls)), ("item", itemToJson it)]
+  | .panicErr cls => Json.mkObj [("panicErr", Json.str cls)]
+  | .na => Json.mkObj [("na", Json.bool true)]
 
 end Minidyn.Codec
